@@ -39,7 +39,13 @@ ASSUMPTIONS = C03.ASSUMPTIONS + [
     "termination of the recursion of GaussianModel.fit is not proved (partial correctness); the >=1 calibration row precondition of the aggregate function is C14.gaussian.split",
     "bounded companion: group structures up to 2 states x 3 sub-groups, calibration counts in {0,3,9,10,11,25}, two- and one-level aggregates",
 ]
-BOUNDED = [{"name": "group_selection_and_alignment", "script": "c15_gaussian.py", "timeout": 2400}]
+BOUNDED = [
+    {"name": "group_selection_and_alignment", "script": "c15_gaussian.py", "timeout": 2400},
+    # differential test of the theory entries the aggregate proof rests on (symbolic result evaluated on concrete elections
+    # vs. the real pandas run, statistics pinned to the real _fit): a test of assumptions, not a proof
+    {"name": "theory_conformance_gaussian_aggregate", "script": "conformance_gaussian.py", "python": "vt", "tiers": ["quick"], "args": ["--n", "3"], "timeout": 1200},
+    {"name": "theory_conformance_gaussian_aggregate", "script": "conformance_gaussian.py", "python": "vt", "tiers": ["thorough"], "args": ["--n", "18"], "timeout": 3000},
+]
 
 
 class GMContract:
@@ -328,6 +334,7 @@ def exists_row(ctx, root, body_u, name):
     inst(root.u)
     inst(root.u2)
     reg[key] = (b, w, inst)
+    ctx.__dict__.setdefault("_exists_defs", []).append((b, body_u, root))
     return reg[key]
 
 
@@ -433,6 +440,37 @@ class GMTableContract:
         return fit
 
 
+def gaussian_aggregate_run(h, keys, opaque_round=True):
+    """world + the REAL get_aggregate_prediction_intervals call of the gaussian estimator (GaussianModel.fit under the
+    contract FitSpec); shared by the proof units and by the conformance driver bounded/conformance_gaussian.py"""
+    from pyvc import theory_np
+    from pyvc.interp import SymKey
+
+    theory_np.OPAQUE_ROUND[0] = bool(opaque_round)  # rounding by congruence + its interval / whole-number consequences
+    t = Three(h, "turnout", extra=("lower_bounds", "upper_bounds", "nr_lower", "nr_upper"))
+    f = z3.Function("inCal", z3.IntSort(), z3.BoolSort())
+    h.syms["inCal"] = f
+    inCal = f(t.root.u)
+    h.forall_rows(t.root, z3.Implies(inCal, t.R))
+    cal = frames.base_frame(t.root, inCal, {k: c.t for k, c in t.rep.cols.items()}, "geographic_unit_fips")
+    alpha = h.real("alpha")
+    h.requires("alpha_open", 0 < alpha, alpha < 1)
+    # C14.gaussian.split (proved there): above the reporting-unit gate the split leaves >= 1 calibration row
+    h.requires("some_calibration_row", cal.axis.n >= 1)
+    frames.count_witness(h.ctx, t.root, inCal)
+    gmc = GMTableContract(h, t)
+    h.contracts[GM] = lambda interp, ms: gmc
+    self = C03.model(h, GA)
+    nr_lo = V(h.syms["nr_lower"](t.root.u), (t.nonrep.axis,), t.nonrep.index)
+    nr_up = V(h.syms["nr_upper"](t.root.u), (t.nonrep.axis,), t.nonrep.index)
+    self.attrs["alpha_to_nonreporting_lower_bounds"] = {SymKey(alpha): nr_lo}
+    self.attrs["alpha_to_nonreporting_upper_bounds"] = {SymKey(alpha): nr_up}
+    upi = NamedTuple("PredictionIntervals", ["lower", "upper", "conformalization"], [None, None, cal])
+    h.default_replay = lambda ev: {"target": "verif_replays:gaussian_aggregate_replay", "args": [list(keys)], "check": "result['exc'] is None and result['ok']"}
+    kind, res = h.call_method(self, "get_aggregate_prediction_intervals", t.rep, t.nonrep, t.third, list(keys), alpha, upi, "turnout")
+    return t, inCal, cal, alpha, gmc, self, kind, res
+
+
 def _agg_intervals(aggname, keys):
     @unit("C15", f"aggregate_intervals.{aggname}", fns=[f"{GA}.get_aggregate_prediction_intervals"])
     def agg(h):
@@ -440,33 +478,9 @@ def _agg_intervals(aggname, keys):
         large enough, else its state, else everything), bounds = summed unadjusted unit bounds shifted by the normal
         quantile of (W mu, sigma sqrt(W2 + kappa W^2)), floored at the votes already counted"""
         from pyvc import sums
-
         from pyvc import theory_np
 
-        theory_np.OPAQUE_ROUND[0] = True  # rounding by congruence + its interval / whole-number consequences
-        t = Three(h, "turnout", extra=("lower_bounds", "upper_bounds", "nr_lower", "nr_upper"))
-        f = z3.Function("inCal", z3.IntSort(), z3.BoolSort())
-        h.syms["inCal"] = f
-        inCal = f(t.root.u)
-        h.forall_rows(t.root, z3.Implies(inCal, t.R))
-        cal = frames.base_frame(t.root, inCal, {k: c.t for k, c in t.rep.cols.items()}, "geographic_unit_fips")
-        alpha = h.real("alpha")
-        h.requires("alpha_open", 0 < alpha, alpha < 1)
-        # C14.gaussian.split (proved there): above the reporting-unit gate the split leaves >= 1 calibration row
-        h.requires("some_calibration_row", cal.axis.n >= 1)
-        frames.count_witness(h.ctx, t.root, inCal)
-        gmc = GMTableContract(h, t)
-        h.contracts[GM] = lambda interp, ms: gmc
-        self = C03.model(h, GA)
-        nr_lo = V(h.syms["nr_lower"](t.root.u), (t.nonrep.axis,), t.nonrep.index)
-        nr_up = V(h.syms["nr_upper"](t.root.u), (t.nonrep.axis,), t.nonrep.index)
-        from pyvc.interp import SymKey
-
-        self.attrs["alpha_to_nonreporting_lower_bounds"] = {SymKey(alpha): nr_lo}
-        self.attrs["alpha_to_nonreporting_upper_bounds"] = {SymKey(alpha): nr_up}
-        upi = NamedTuple("PredictionIntervals", ["lower", "upper", "conformalization"], [None, None, cal])
-        h.default_replay = lambda ev: {"target": "verif_replays:gaussian_aggregate_replay", "args": [list(keys)], "check": "result['exc'] is None and result['ok']"}
-        kind, res = h.call_method(self, "get_aggregate_prediction_intervals", t.rep, t.nonrep, t.third, list(keys), alpha, upi, "turnout")
+        t, inCal, cal, alpha, gmc, self, kind, res = gaussian_aggregate_run(h, keys)
         if kind == "raise":
             return h.fail("no_raise", f"raised {res}", replay=lambda ev: {"target": "verif_replays:gaussian_aggregate_replay", "args": [list(keys)], "check": "result['exc'] is None and result['ok']"})
         L = len(keys)
